@@ -23,6 +23,8 @@ THEOREMS = [
     "C23_validate_hitl_flag",
     "C23_error_is_first_failure",
     "C23_subclass_is_closure",
+    "C23_unfed_step_unreachable",
+    "C23_unfed_step_rejected",
 ]
 LEAN_TARGETS = ["WfProps.C23"]
 EXPLANATION = (
@@ -40,7 +42,14 @@ EXPLANATION = (
     "real StepConfig dicts and as real Workflow subclasses with dynamically created event classes are validated by the real code "
     "and by the compiled model (result, error kind and offending names compared), plus build_step_graph's reachable sets, _dfs on "
     "random digraphs and issubclass on the generated class tables. Search: an independent set-based statement of the property in "
-    "Python (fixpoint reachability) is checked against the real code's accept/reject decision, error kind and flag."
+    "Python (fixpoint reachability) is checked against the real code's accept/reject decision, error kind and flag: the reference "
+    "oracle recomputes the verdict (accept, or the failing clause; for the graph clause which of reachability / terminal_event / "
+    "dead_end fail and for which steps / events) from the step set alone and any difference is a violation "
+    "`C23/verdict_differs:<expected>-><got>` with the step set as replay.  Entry points of the oracle's reachability are what the "
+    "engine delivers (start event, HumanResponseEvent types, handler steps by name), so an ordinary step consuming an event type "
+    "nothing feeds - StepFailedEvent next to wildcard / scoped handlers or without handlers - must be rejected "
+    "(C23_unfed_step_unreachable / _rejected); such steps are generated dead, in dead chains, live through a union or a producer, "
+    "and with the check skipped."
 )
 ASSUMPTIONS = [
     "accepted_events / return_types hold classes (issubclass never raises); generic aliases and other non-class annotations are out of the domain",
@@ -269,8 +278,18 @@ def op_hier(bases: list[list[int]]) -> str:
 # (S) the property, stated independently of the model on the real StepConfig objects
 
 
-def spec(steps: dict[str, Any], skip: list[str], via_constructor: bool) -> tuple[list[str], bool]:
-    """-> (names of the failing clauses, expected human-in-the-loop flag)"""
+def spec(steps: dict[str, Any], skip: list[str], via_constructor: bool,
+         classes: list[type] | None = None) -> tuple[list[str], bool, str]:
+    """The reference oracle: the property recomputed from the step set alone (set comprehensions and a least-fixpoint
+    closure; nothing of the implementation is called, nothing of the Lean model is read).
+    -> (names of the failing clauses in the order the property lists them, expected human-in-the-loop flag,
+        expected graph verdict `graph[<R|T|D letters>] R=.. T=.. D=..` or "" when the graph clauses hold)
+
+    Reachability is stated on what the engine delivers: execution enters at the start event, at any
+    HumanResponseEvent type and at every @catch_error handler *step* (a StepFailedEvent is handed to the owning
+    handler by name).  An event type is reachable only when a reachable step returns it or it is one of those
+    entry events, so a plain step consuming an event nobody produces and nobody sends in is not reachable -
+    StepFailedEvent included, whether or not handlers exist."""
     from workflows.events import HumanResponseEvent, InputRequiredEvent, StartEvent, StepFailedEvent, StopEvent
 
     none = type(None)
@@ -329,18 +348,35 @@ def spec(steps: dict[str, Any], skip: list[str], via_constructor: bool) -> tuple
 
     fwd = closure(starts | {c for c in event_types if issubclass(c, HumanResponseEvent)} | set(handlers))
     outputs = {c for c in event_types if issubclass(c, (StopEvent, InputRequiredEvent))}
-    g_r = g_t = g_d = False
+    # nodes from which an output event can be reached: least fixpoint of "is an output, or has a successor in the set"
+    to_output = set(outputs)
+    grew = True
+    while grew:
+        grew = False
+        for a, bs in succ.items():
+            if a not in to_output and bs & to_output:
+                to_output.add(a)
+                grew = True
+    bad_r: list[Any] = []
+    bad_t: list[Any] = []
+    bad_d: list[Any] = []
     if "reachability" not in skip:
-        g_r = any(n not in fwd for n, cfg in steps.items() if "reachability" not in cfg.skip_graph_checks)
+        bad_r = [n for n, cfg in steps.items() if "reachability" not in cfg.skip_graph_checks and n not in fwd]
     if "terminal_event" not in skip:
-        g_t = any(c not in consumed and c not in outputs for c in event_types)
+        bad_t = [c for c in event_types if c not in consumed and c not in outputs]
     if "dead_end" not in skip:
-        g_d = any(not (closure({n}) & outputs) for n, cfg in steps.items()
-                  if "dead_end" not in cfg.skip_graph_checks and any(c is not none for c in cfg.return_types))
-    if g_r or g_t or g_d:
+        bad_d = [n for n, cfg in steps.items() if "dead_end" not in cfg.skip_graph_checks
+                 and any(c is not none for c in cfg.return_types) and n not in to_output]
+    graph = ""
+    if bad_r or bad_t or bad_d:
         failing.append("graph")
+        letters = ("R" if bad_r else "") + ("T" if bad_t else "") + ("D" if bad_d else "")
+        graph = f"graph[{letters}]"
+        if classes is not None:
+            graph += (f" R={_sset([int(n[1:]) for n in bad_r])} T={_sset([cls_id(classes, c) for c in bad_t])}"
+                      f" D={_sset([int(n[1:]) for n in bad_d])}")
     hitl = any(issubclass(c, InputRequiredEvent) for c in produced) or any(issubclass(c, HumanResponseEvent) for c in consumed)
-    return failing, hitl
+    return failing, hitl, graph
 
 
 def hitl_only_by_subclass(steps: dict[str, Any]) -> bool:
@@ -394,12 +430,36 @@ def run_case(case: dict) -> tuple[str, str, dict[str, Any], list[type]] | None:
     return op, out, steps, classes
 
 
-def monitor(case: dict, out: str, steps: dict[str, Any], o: Outcome) -> Violation | None:
-    failing, hitl = spec(steps, case["skip"], case["path"] == "W")
+def _graph_letters(out: str) -> str:
+    """`err graph R=1 T=- D=2` -> `graph[RD]`"""
+    m = re.match(r"err graph R=(\S+) T=(\S+) D=(\S+)", out)
+    if not m:
+        return "graph[?]"
+    return "graph[" + "".join(k for k, v in zip("RTD", m.groups()) if v != "-") + "]"
+
+
+def monitor(case: dict, out: str, steps: dict[str, Any], o: Outcome, classes: list[type] | None = None) -> Violation | None:
+    """The decision procedure against the reference oracle `spec` (computed from the step set only).  The verdict is
+    `accept` or the clause the error stands for (`graph[..]` names the graph checks that fail).  Where several clauses
+    fail the property does not say which one is reported: any failing one is fine."""
+    failing, hitl, graph = spec(steps, case["skip"], case["path"] == "W", classes)
+    want = "accept" if not failing else (graph.split(" ")[0] if failing[0] == "graph" else failing[0])
+
+    def shape() -> str:
+        plain_sf = handlers = False
+        try:
+            from workflows.events import StepFailedEvent
+            plain_sf = any(cfg.role != "catch_error" and any(issubclass(c, StepFailedEvent) for c in cfg.accepted_events)
+                           for cfg in steps.values())
+            handlers = any(cfg.role == "catch_error" for cfg in steps.values())
+        except Exception:  # noqa: BLE001
+            pass
+        return f" (plain step consuming StepFailedEvent: {plain_sf}; handlers: {handlers}; skip={case['skip']})"
+
     if out.startswith("ok"):
         if failing:
-            return Violation("C23/accepted_malformed:" + "+".join(sorted(failing)),
-                             f"validation accepted a step set that violates {failing}", case)
+            return Violation(f"C23/verdict_differs:{want}->accept",
+                             f"validation accepted a step set that violates {failing}" + (f" [{graph}]" if graph else "") + shape(), case)
         got = out[3:]
         if got != str(int(hitl)):
             sub = "subclass_only" if hitl_only_by_subclass(steps) else "direct"
@@ -409,10 +469,19 @@ def monitor(case: dict, out: str, steps: dict[str, Any], o: Outcome) -> Violatio
     kind = out[4:].split(" ")[0].split("!")[0]
     if "!" in out or out.startswith("err other"):
         return Violation("C23/unexpected_error:" + out[4:40], f"validation raised an unclassified or wrongly typed error: {out}", case)
+    got_v = _graph_letters(out) if kind == "graph" else kind
     if not failing:
-        return Violation("C23/rejected_wellformed:" + kind, f"validation rejected a well-formed step set with {out}", case)
+        return Violation(f"C23/verdict_differs:accept->{got_v}", f"validation rejected a well-formed step set with {out}" + shape(), case)
     if kind not in failing:
-        return Violation(f"C23/wrong_error:{kind}", f"validation reported {out} but the failing clauses are {failing}", case)
+        return Violation(f"C23/verdict_differs:{want}->{got_v}", f"validation reported {out} but the failing clauses are {failing}" + shape(), case)
+    if kind == "graph" and graph:
+        exp_letters = graph.split(" ")[0]
+        if got_v != exp_letters:
+            return Violation(f"C23/verdict_differs:{exp_letters}->{got_v}",
+                             f"validation reported {out} but the graph checks that fail are {graph}" + shape(), case)
+        if classes is not None and out[4:] != "graph " + graph.split(" ", 1)[1]:
+            return Violation(f"C23/verdict_differs:{exp_letters}->{got_v}:offenders",
+                             f"validation reported {out} but the offending steps / events are {graph}" + shape(), case)
     return None
 
 
@@ -556,6 +625,10 @@ def gen_flow(rng: random.Random, bases: list[list[int]], path: str) -> tuple[dic
     skip: list[str] = []
     if rng.random() < 0.15:
         skip = rng.sample(CHECKS, rng.randint(1, 2))
+    tag = None
+    if rng.random() < 0.16:
+        tag = failed_event_consumers(rng, fam, steps, skip, nxt, T, mids)
+        label += "+sfplain"
     for s in steps:
         if not s["handler"] and rng.random() < 0.06:
             s["skip"] = rng.sample(["reachability", "dead_end"], rng.randint(1, 2))
@@ -566,7 +639,54 @@ def gen_flow(rng: random.Random, bases: list[list[int]], path: str) -> tuple[dic
             if not s["handler"] and rng.random() < 0.15:
                 s["free"] = True
     rng.shuffle(steps)
-    return {"path": path, "bases": bases, "steps": steps, "skip": skip}, label
+    case = {"path": path, "bases": bases, "steps": steps, "skip": skip}
+    if tag is not None:
+        case["tag"] = tag
+    return case, label
+
+
+def failed_event_consumers(rng: random.Random, fam: dict, steps: list[dict], skip: list[str], nxt: Any, T: int, mids: list[int]) -> str:
+    """Ordinary steps that consume StepFailedEvent (or a subclass), next to a wildcard handler, scoped handlers or no
+    handler at all.  The engine hands a StepFailedEvent to the owning handler by name only, so such a step is
+    reachable only through its other accepted events or when some reachable step *returns* the event type."""
+    normal = [s["name"] for s in steps if not s["handler"]]
+    have = [s for s in steps if s["handler"]]
+    sf = 5 if rng.random() < 0.8 else rng.choice(fam["sf"])
+    r = rng.random()
+    if not have and r < 0.7:
+        if r < 0.35:
+            fs = None
+        else:
+            fs = rng.sample(normal, min(len(normal), rng.randint(0, 2)))
+        steps.append(_mk(next(nxt), [5], [rng.choice(mids + [T, T])], handler=True, **{"for": fs}, maxrec=rng.randint(1, 3)))
+        hk = "wild" if fs is None else "scoped"
+    else:
+        hk = "none" if not have else ("wild" if any(h["for"] is None for h in have) else "scoped")
+    fresh = [p for p in fam["plain"] if p not in mids and p != 0]
+    shape = rng.choice(["dead", "dead", "dead_chain", "live_union", "produced", "dead_skipped", "dead_wfskip", "dead_none"])
+    if shape == "dead_chain" and not fresh:
+        shape = "dead"
+    if shape in ("live_union", "produced") and not mids:
+        shape = "dead"
+    if shape == "dead":
+        steps.append(_mk(next(nxt), [sf], [rng.choice(mids + [T, T])]))
+    elif shape == "dead_none":
+        steps.append(_mk(next(nxt), [sf], [6]))
+    elif shape == "dead_chain":
+        q = rng.choice(fresh)
+        steps.append(_mk(next(nxt), [sf], [q]))
+        steps.append(_mk(next(nxt), [q], [T]))
+    elif shape == "live_union":
+        steps.append(_mk(next(nxt), [sf, rng.choice(mids)], [T]))
+    elif shape == "produced":
+        rng.choice([s for s in steps if not s["handler"]])["ret"].append(sf)
+        steps.append(_mk(next(nxt), [sf], [T]))
+    elif shape == "dead_skipped":
+        steps.append(_mk(next(nxt), [sf], [T], skip=rng.choice([["reachability"], ["reachability", "dead_end"], ["dead_end"]])))
+    elif shape == "dead_wfskip":
+        steps.append(_mk(next(nxt), [sf], [T]))
+        skip[:] = sorted({*skip, rng.choice(["reachability", "reachability", "dead_end", "terminal_event"])})
+    return f"sfplain:{shape}:{hk}"
 
 
 def mutate(rng: random.Random, fam: dict, steps: list[dict], skip: list[str], nxt: Any, S: int, T: int, mids: list[int], path: str) -> str:
@@ -688,18 +808,24 @@ def gen_random_flow(rng: random.Random, bases: list[list[int]], path: str) -> tu
     ncls = NB + len(bases)
     pool = [c for c in range(ncls) if c != 6]
     rng.shuffle(pool)
-    pool = pool[: rng.randint(3, 6)] + [1, 2]
+    pool = pool[: rng.randint(3, 6)] + [1, 2] + ([5] if rng.random() < 0.3 else [])
     steps = []
     for name in rng.sample(range(0, 40), rng.randint(1, 4)):
         acc = rng.sample(pool, rng.randint(1, 2))
         ret = rng.sample(pool + [6], rng.randint(1, 2))
         steps.append(_mk(name, acc, ret, skip=rng.sample(["reachability", "dead_end"], rng.randint(0, 1)) if rng.random() < 0.2 else []))
+    if rng.random() < 0.3:
+        used = {s["name"] for s in steps}
+        hname = next(n for n in range(40, 60) if n not in used)
+        fs = None if rng.random() < 0.5 else rng.sample(sorted(used), rng.randint(0, min(2, len(used))))
+        steps.append(_mk(hname, [5], rng.sample(pool + [6], 1), handler=True, **{"for": fs}))
     skip = rng.sample(CHECKS, rng.randint(0, 3)) if rng.random() < 0.4 else []
     return {"path": path, "bases": bases, "steps": steps, "skip": skip}, "random"
 
 
 def corpus() -> list[tuple[dict, str]]:
-    B = [[3], [4], [0], [7], [8], [1], [2], [9], [4, 0]]  # 7:IR' 8:HR' 9:plain 10:IR'' 11:HR'' 12:Start' 13:Stop' 14:plain' 15:(HR,Event)
+    # 7:IR' 8:HR' 9:plain 10:IR'' 11:HR'' 12:Start' 13:Stop' 14:plain' 15:(HR,Event) 16:StepFailed'
+    B = [[3], [4], [0], [7], [8], [1], [2], [9], [4, 0], [5]]
 
     def c(path: str, steps: list[dict], skip: list[str] | None = None) -> dict:
         return {"path": path, "bases": B, "steps": steps, "skip": skip or []}
@@ -730,6 +856,21 @@ def corpus() -> list[tuple[dict, str]]:
             (c(p, [_mk(1, [1], [9, 6]), _mk(2, [9], [6]), _mk(3, [9], [2])]), "None returns"),
             (c(p, [_mk(1, [1], [2])], ["bogus"]), "unknown check name"),
             (c(p, [_mk(1, [1], [2]), _mk(2, [15], [2])]), "class deriving from HumanResponseEvent and Event consumed"),
+            (c(p, [_mk(1, [1], [2]), _mk(3, [5], [2])]), "plain step consuming StepFailedEvent, no handler: unreachable"),
+            (c(p, [_mk(1, [1], [2]), _mk(5, [5], [2], handler=True), _mk(3, [5], [2])]),
+             "plain step consuming StepFailedEvent next to a wildcard handler: still unreachable"),
+            (c(p, [_mk(1, [1], [2]), _mk(5, [5], [2], handler=True, **{"for": [1]}), _mk(3, [5], [9]), _mk(4, [9], [2])]),
+             "scoped handler; the StepFailedEvent consumer heads an unreachable sub-graph"),
+            (c(p, [_mk(1, [1], [2]), _mk(5, [5], [2], handler=True), _mk(3, [16], [2])]),
+             "plain step consuming a StepFailedEvent subclass next to a wildcard handler"),
+            (c(p, [_mk(1, [1], [9, 2]), _mk(5, [5], [2], handler=True), _mk(3, [5, 9], [2])]),
+             "StepFailedEvent consumer that is reachable through its other accepted event"),
+            (c(p, [_mk(1, [1], [5, 2]), _mk(5, [5], [2], handler=True), _mk(3, [5], [2])]),
+             "StepFailedEvent returned by a reachable step: its plain consumer is reachable"),
+            (c(p, [_mk(1, [1], [2]), _mk(5, [5], [2], handler=True), _mk(3, [5], [2], skip=["reachability"])]),
+             "unreachable StepFailedEvent consumer, reachability skipped on the step"),
+            (c(p, [_mk(1, [1], [2]), _mk(5, [5], [2], handler=True), _mk(3, [5], [2])], ["reachability"]),
+             "unreachable StepFailedEvent consumer, reachability skipped on the workflow"),
             (c(p, [_mk(1, [1], [9]), _mk(2, [9], [6])]), "no stop event"),
             (c(p, [_mk(1, [9], [2])]), "no start event"),
         ]
@@ -859,12 +1000,14 @@ def run_batch(env: Env, out: Outcome, cases: list[tuple[dict, str]], hiers: list
         out.evaluations += 1
         out.count("path:" + case["path"])
         out.count("gen:" + (label if label.startswith(("valid", "mut:", "random")) else "corpus"))
+        if case.get("tag"):
+            out.count("shape:" + case["tag"])
         kind = res.split(" ")[0] + (" " + res.split(" ")[1] if res.startswith("err") else (" hitl" if res.endswith("1") else ""))
         out.count("impl:" + kind)
         if kind not in ("err noStart", "err noStop", "err noSteps"):
             out.nontrivial(op)
         out.sample({"label": label, "op": op, "impl": res})
-        v = monitor(case, res, steps, out)
+        v = monitor(case, res, steps, out, _classes)
         if v is not None:
             out.violations.append(v)
     _diff(out, "validate", ops, exp, ctx)
@@ -880,7 +1023,7 @@ def run(env: Env) -> Outcome:
     boot()
     out = Outcome()
     out.rule = ("class tables with chains / multiple inheritance x constructed mostly-valid workflows (backbone, unions, None returns, "
-                "HITL events, handlers, skip settings) with one mutation in ~38% + unconstrained small step sets; both as StepConfig dicts "
+                "HITL events, handlers, ordinary StepFailedEvent consumers in ~16%, skip settings) with one mutation in ~38% + unconstrained small step sets; both as StepConfig dicts "
                 "(_validate_workflow) and as real Workflow subclasses (constructor + validate()); non-trivial = accepted or rejected by a "
                 "check after start/stop inference; distinct by op line")
     rng = random.Random(env.rng.randrange(1 << 30))
@@ -893,6 +1036,9 @@ def run(env: Env) -> Outcome:
     wpath = os.path.join(VERIF, "harness", "corpus", "c23_hitl_subclass.json")
     if os.path.exists(wpath):
         first.append((json.load(open(wpath))["case"], "witness F21"))
+    spath = os.path.join(VERIF, "harness", "corpus", "c23_failed_event_plain_consumer.json")
+    if os.path.exists(spath):
+        first.append((json.load(open(spath))["case"], "corpus: StepFailedEvent plain consumer"))
     run_batch(env, out, first, [c["bases"] for c, _l in first[:1]] + [first[-1][0]["bases"]], 100)
     n = env.budget(3000, 150000)
     per_hier = 8 if env.tier == "quick" else 12
